@@ -100,10 +100,10 @@ def run(chk, only=None):
         batches = [(), (2,)] if quick else [(), (2,), (2, 3), (1,)]
         ks = [1, 3] if quick else [1, 2, 5]
         configs = [("default", {}), ("lanczos", {"max_cholesky_size": 0}), ("nofast", {"fast_root": False})]
-        if not quick:
-            configs.append(("ciq", {"ciq": True}))
-        else:
-            configs.append(("ciq", {"ciq": True}))
+        configs.append(("ciq", {"ciq": True}))
+        # query histories on the same object before sampling (cached factorizations steer the root method)
+        configs += [("after-diagonalization", {"pre": "diagonalization"}), ("after-root_inv", {"pre": "root_inv_decomposition"}),
+                    ("after-eigh", {"pre": "eigh"}), ("after-cholesky", {"pre": "cholesky"})]
         for dtype in dtypes:
             for batch in batches:
                 insts = [(it, 3) for it in catalogue.instances(chk.rng, dtype, batch, 3, psd=True, depth=2)]
@@ -116,6 +116,10 @@ def run(chk, only=None):
                         if cname != "default" and (dtype == torch.float32 or (quick and batch != ())):
                             continue
                         if cname == "ciq" and (quick and it.name not in ("Dense[psd]", "Kronecker", "AddedDiag", "Diag")):
+                            continue
+                        if cname.startswith("after-") and quick and it.name not in (
+                                "Dense[psd]", "Kronecker", "AddedDiag", "Toeplitz", "KroneckerAddedDiag[const]", "PsdSum",
+                                "BlockDiag", "SumBatch", "ConstantMul", "Sum(Kronecker,Diag)", "LowRankRootAddedDiag"):
                             continue
                         k = chk.rng.choice(ks)
                         cell = f"C18/{it.name}[b={batch}|n={nsz}|{str(dtype)[6:]}]/{cname}"
@@ -161,6 +165,12 @@ def one_case(chk, noise, it, dtype, batch, k, cname, cfg, cell, lines, expect, s
             st.enter_context(settings.num_contour_quadrature(25))
         torch.manual_seed(chk.rng.randrange(2 ** 31))
         op = it.build()
+        if cfg.get("pre"):
+            try:
+                getattr(op, cfg["pre"])()
+            except Exception:
+                chk.count("prequery_unsupported")
+                return
         A = it.dense.double()
         n = A.shape[-1]
         batch = tuple(A.shape[:-2])  # the operator's own batch shape (BatchRepeat adds dims)
@@ -196,6 +206,8 @@ def one_case(chk, noise, it, dtype, batch, k, cname, cfg, cell, lines, expect, s
         want = torch.block_diag(*[a for a in batch_members(A, nb_)]) if nb_ else A
         if cname == "ciq":
             tol = 2e-2
+        elif cname.startswith("after-"):
+            tol = 1e-6
         elif cname == "lanczos":
             tol = 1e-3
         else:
